@@ -320,6 +320,7 @@ def run(ctx, chk, tier):
     # ---------------- R11.2 (= R01.4) is_sorted only with ascending arrays
     from . import c01
     c01.construction_sites(ctx, chk)
+    c01.constructor_sorted(ctx, chk)   # samples built with is_sorted=False rely on the constructor's sort
     # ---------------- R11.3 count algebra of _sample_indices
     count_algebra(ctx, chk)
     # ---------------- R11.4 duality
